@@ -81,6 +81,9 @@ static bool aliased(const std::string& a, const std::string& b) {
         {"DHCPv6.msg_type", "DHCPv6.is_relay_message", "DHCPv6.hop_count", "DHCPv6.transaction_id", 0},
         {"Dot11.addr1", "Dot11Data.addr2", "Dot11Data.addr3", "Dot11Data.addr4", "Dot11Data.dst_addr", "Dot11Data.src_addr", "Dot11Data.bssid_addr", "Dot11.to_ds", "Dot11.from_ds", 0},
         {"RTP.padding_size", "RTP.padding_bit", 0},
+        {"LLC.dsap", "LLC.group", 0},
+        {"LLC.ssap", "LLC.response", 0},
+        {"LLC.type", "LLC.send_seq_number", "LLC.receive_seq_number", "LLC.poll_final", "LLC.supervisory_function", "LLC.modifier_function", 0},
         {"RTP.extension_bit", "RTP.extension_profile", "RTP.extension_length", 0},
         {0}};
     for (int g = 0; groups[g][0]; ++g) {
